@@ -711,8 +711,8 @@ def coq_overlap(scratch, scs, obs):
         return {}, None
     f = scratch / "overlap_c04.v"
     f.write_text("From Coq Require Import ZArith List Bool.\n"
-                 "From PV Require Import Sim.Model Sim.Lifecycle Sim.Overlap.\nImport ListNotations.\n"
-                 "Definition TL := Eval vm_compute in closure true pol_any.\n"
+                 "From PV Require Import Sim.Model Sim.Lifecycle Sim.Overlap Sim.OverlapProofs.\nImport ListNotations.\n"
+                 "Definition TL := T_any_loose.\n"
                  "Definition rows : list bool := [" + ";\n".join(rows) + "].\n"
                  "Fixpoint falses (i : nat) (l : list bool) : list nat := match l with [] => [] | b :: r => "
                  "if b then falses (S i) r else i :: falses (S i) r end.\n"
